@@ -17,7 +17,9 @@ FLAG_NAMES = ["HAS_CONST", "HAS_NAME", "HAS_JREL", "HAS_JABS", "HAS_JUNKNOWN", "
 MASK_PREDICATES = ["no_next", "store_jump", "pops_block", "pushes_block", "has_jump", "has_known_jump"]
 # opcode classes blocks.py / opcodes.py test with isinstance(); the model compares the class id
 SPECIAL = ["SEND", "GET_ANEXT", "JUMP_BACKWARD", "JUMP_BACKWARD_NO_INTERRUPT", "CLEANUP_THROW", "END_SEND",
-           "END_ASYNC_FOR", "POP_BLOCK", "SETUP_EXCEPT_311"]
+           "END_ASYNC_FOR", "POP_BLOCK", "SETUP_EXCEPT_311",
+           # blocks.add_pop_block_targets
+           "RAISE_VARARGS", "BREAK_LOOP", "SETUP_FINALLY", "SETUP_LOOP"]
 
 OUT = os.path.join(common.COQ, "Generated", "C16_OpcodeFlags.v")
 
